@@ -20,7 +20,7 @@ META = {
         "graph invariants read the private pointer lists of CircuitGraphBranch (hook at the mutator, not an API observation)",
     ],
     "floors": {
-        "quick": {"unrolled_nested_listings_compared": 2500, "late_add_listings": 2500, "dangling_relation_adds": 8000, "late_add_through_nested_handle": 500, "listings_checked": 4000, "graph_invariant": 30000, "add_to_graph_post": 30000, "causality_pairs": 20000, "blocks_contiguity": 1500, "chain_length": 5000, "chains_at_depth_limit": 1},
+        "quick": {"operations_sharing_a_link_instance": 40, "unrolled_nested_listings_compared": 2500, "late_add_listings": 2500, "dangling_relation_adds": 8000, "late_add_through_nested_handle": 500, "listings_checked": 4000, "graph_invariant": 30000, "add_to_graph_post": 30000, "causality_pairs": 20000, "blocks_contiguity": 1500, "chain_length": 5000, "chains_at_depth_limit": 1},
         "thorough": {"listings_checked": 40000, "graph_invariant": 300000, "causality_pairs": 200000, "blocks_contiguity": 15000},
     },
 }
@@ -251,7 +251,10 @@ def check_program(prog: Dict[str, Any], acc: Acc, flags=None):
 
 
 def gen_case(rng: random.Random, cls: str) -> Dict[str, Any]:
-    return gen.gen_program(rng, cls)
+    prog = gen.gen_program(rng, cls)
+    if rng.random() < 0.2:
+        prog["shared_link_twins"] = gen.add_shared_link_twins(rng, prog["circuit"])
+    return prog
 
 
 def chain_program(rng: random.Random, length: int) -> Dict[str, Any]:
